@@ -89,3 +89,71 @@ func VerifC10_q_bindVsLateEvent() {
 	verifReach("late-event-overlapped-bind")
 	w.checkAll("C10", "a late event of the old incarnation handled while the new incarnation was being bound")
 }
+
+// BOUND: cloud provider configured; topology 0; two statefulset pods ss-0, ss-1 bound on n1 (symbolic policy); ss-0 vanishes without event (so the resync pass has work); a resync pass runs and, atomically inside any one window right before/after one of its API-server / provider calls (symbolic window 0..12), ss-1 moves: deleted, event handled, re-created with a new UID, bound on n5 (same node subnet), and then optionally deleted again with its event still queued (not running when the pass reaches it); afterwards queued events are handled and the same-named pod is re-created once more and bound on n1. The provider's per-IP state machine asserts inside every AssignIP / UnAssignIP and inside every store delete / re-key
+// ASSUME: C10: interference granularity = API-server and provider calls, as in VerifC04_q_resyncVsReincarnation
+func VerifC10_q_resyncVsMove() {
+	w := vpNewWorld(0, true)
+	if err := w.configure(); err != nil {
+		return
+	}
+	w.setStatefulSet(2)
+	policy := nondetPick("", "immutable", "never")
+	for i := 0; i < 2; i++ {
+		name := vpPodNameOf(vpKindSts, i)
+		w.createPod(vpMakePod(name, "U1", vpKindSts, policy, "", ""))
+		w.syncListers()
+		if w.bind(name, "n1") != nil {
+			return
+		}
+		w.setRunning(name)
+	}
+	w.syncListers()
+	w.deletePodSilently("ss-0")
+	w.syncListers()
+	name := "ss-1"
+	goneAgain := nondetBool()
+	w.interferer = func() {
+		w.deletePod(name)
+		w.syncListers()
+		for len(w.pending) > 0 {
+			_ = w.handleEvent(0)
+		}
+		w.createPod(vpMakePod(name, "U2", vpKindSts, policy, "", ""))
+		w.syncListers()
+		if w.bind(name, "n5") != nil {
+			return
+		}
+		if goneAgain {
+			w.deletePod(name) // its delete event stays queued
+			w.syncListers()
+		} else {
+			w.setRunning(name)
+			w.syncListers()
+		}
+	}
+	w.windowAt = nondetInt(0, 12)
+	w.resync()
+	w.finishInterference()
+	ran := w.interferer == nil
+	w.interferer = nil
+	verifReach("resync-returned")
+	if !ran {
+		return
+	}
+	verifReach("move-inside-resync")
+	w.checkAll("C10", "a resync pass that overlapped a move of the pod to another node")
+	for len(w.pending) > 0 {
+		_ = w.handleEvent(0)
+	}
+	w.checkAll("C10", "handling the queued events")
+	if w.pods[name] == nil {
+		w.createPod(vpMakePod(name, "U3", vpKindSts, policy, "", ""))
+		w.syncListers()
+		if w.bind(name, "n1") == nil {
+			w.setRunning(name)
+			w.syncListers()
+		}
+		w.checkAll("C10", "binding the next incarnation on the first node")
+	}
+}
